@@ -80,6 +80,7 @@ package paillier
 //@   requires pkN != nil && k != nil && ecdsaPub != nil && wfPoint(ecdsaPub)
 //@   requires [proof-entries-present] forall i in 0..13 :: pf[i] != nil
 //@   pure
+//@   ensures [C11.acceptance-is-a-function-of-the-inputs] (result0 && result1 == nil) == pailverify(pf, bvheap(), val(pkN), val(k), px(ecdsaPub), py(ecdsaPub))
 
 //@ func (*PrivateKey).Proof
 //@   trusted prover side of the Paillier key-correctness proof (GenerateXs: goroutines, channels, floats): outside the generator subset; writes nothing the caller can see
